@@ -78,9 +78,10 @@ impl DBConfig {
         min_keys_per_page: usize,
         num_siblings_per_side: usize,
     ) -> Self {
+        // Clamp first: `next_power_of_two` overflows for requests above 2^63
         let page_size = page_size
-            .next_power_of_two()
-            .clamp(MIN_PAGE_SIZE, MAX_PAGE_SIZE);
+            .clamp(MIN_PAGE_SIZE, MAX_PAGE_SIZE)
+            .next_power_of_two();
         Self {
             pool_size,
             min_keys_per_page,
@@ -113,7 +114,7 @@ impl Default for DBConfigBuilder {
 impl DBConfigBuilder {
     /// Sets the page size in bytes.
     pub fn page_size(mut self, size: usize) -> Self {
-        self.config.page_size = size.next_power_of_two().clamp(MIN_PAGE_SIZE, MAX_PAGE_SIZE);
+        self.config.page_size = size.clamp(MIN_PAGE_SIZE, MAX_PAGE_SIZE).next_power_of_two();
         self
     }
 
